@@ -7,7 +7,9 @@ C02 — model of the transfer functions of the strided-interval value domain:
 
 Bit-vectors are signed `Int` values + a bit width (see `CweModel.Base.Interval`). Every definition
 mirrors the Rust function named in its doc comment, after the repairs of D8 (`signed_mul` stride of a
-singleton result) and D9 (`signed_mult_with_overflow_flag(-1, MIN)`).
+singleton result), D9 (`signed_mult_with_overflow_flag(-1, MIN)`), of the singleton arithmetic
+(`add`/`sub`/`signed_mul`/`int_2_comp` of constants are exact also when they overflow as signed
+operations) and of the count casts (`Top` if the bit length of the operand does not fit the result).
 
 The section `Conc` holds the concrete (reference) semantics of the operations on bit-vectors, used by
 the specification; it is kept small so that it can be swapped for `CweModel.Base.Bv`.
@@ -181,30 +183,35 @@ def piece (I J : Interval) : Interval :=
       else u64shl 1 (trailingZeros64 J.stride)
     { w := w, start := cpiece I.w J.w I.start J.start, stop := cpiece I.w J.w I.stop J.stop, stride := stride }
 
-/-- `Interval::int_2_comp` -/
+/-- `Interval::int_2_comp` (repaired: a singleton is negated exactly, also `-MIN = MIN`) -/
 def int2Comp (I : Interval) : Interval :=
-  if I.start > smin I.w then { I with start := cneg I.w I.stop, stop := cneg I.w I.start }
+  if I.start = I.stop ∨ I.start > smin I.w then { I with start := cneg I.w I.stop, stop := cneg I.w I.start }
   else newTop I.w
 
 /-- `Interval::bitwise_not` -/
 def bitwiseNot (I : Interval) : Interval :=
   if I.start = I.stop then single I.w (cnot I.w I.start) else newTop I.w
 
-/-- `Interval::add` -/
+/-- `Interval::add` (repaired: the sum of two singletons is the singleton of the wrapping sum, also
+when it overflows as a signed addition) -/
 def add (I J : Interval) : Interval :=
+  if I.start = I.stop ∧ J.start = J.stop then single I.w (cadd I.w I.start J.start) else
   match signedAddOverflowChecked I.w I.start J.start, signedAddOverflowChecked I.w I.stop J.stop with
   | some s, some e => { w := I.w, start := s, stop := e, stride := Nat.gcd I.stride J.stride }
   | _, _ => newTop I.w
 
-/-- `Interval::sub` -/
+/-- `Interval::sub` (repaired like `add`) -/
 def sub (I J : Interval) : Interval :=
+  if I.start = I.stop ∧ J.start = J.stop then single I.w (csub I.w I.start J.start) else
   match signedSubOverflowChecked I.w I.start J.stop, signedSubOverflowChecked I.w I.stop J.start with
   | some s, some e => { w := I.w, start := s, stop := e, stride := Nat.gcd I.stride J.stride }
   | _, _ => newTop I.w
 
-/-- `Interval::signed_mul` (repaired, D8: stride 0 for a singleton result) -/
+/-- `Interval::signed_mul` (repaired, D8: stride 0 for a singleton result; the product of two
+singletons of at most 64 bit is the singleton of the wrapping product, also when it overflows) -/
 def signedMul (I J : Interval) : Interval :=
   if I.w > 64 then newTop I.w
+  else if I.start = I.stop ∧ J.start = J.stop then single I.w (cmul I.w I.start J.start)
   else
     let v1 := signedMultWithOverflowFlag I.w I.start J.start
     let v2 := signedMultWithOverflowFlag I.w I.start J.stop
@@ -394,18 +401,26 @@ def subpiece (a : IntervalDomain) (low size : Nat) : IntervalDomain :=
 /-- the fallback of the count casts: `IntervalDomain::new(0, bit length)` -/
 def countRange (w w' : Nat) : IntervalDomain := new w' 0 (wrap w' (w : Int))
 
-/-- `RegisterDomain::cast` (`w'` in bits) -/
+/-- the guard of the count casts (repair of the ill-formed `[0, 128 as i8]`): the bit length `w` of the
+operand — the largest possible count — is a non-negative signed `w'`-bit value. Rust computes it on
+`usize` as `!(w' <= 64 && w >> (w' - 1) != 0)`; see `countFits_eq_rust`. -/
+def countFits (w w' : Nat) : Bool := decide ((w : Int) ≤ smax w')
+
+/-- `RegisterDomain::cast` (`w'` in bits). Repaired: a count cast of a non-constant whose bit length does
+not fit the result yields `Top`. -/
 def cast (a : IntervalDomain) (kind : CastOp) (w' : Nat) : IntervalDomain :=
   match kind with
   | .intZExt => if a.w = w' then a else a.zeroExtend w'
   | .intSExt => a.signExtend w'
   | .float2Float | .int2Float | .trunc => newTop w'
   | .popCount =>
-    match a.tryToBitvec with
+    if a.tryToBitvec.isNone && !countFits a.w w' then newTop w'
+    else match a.tryToBitvec with
     | some x => single w' (cpopcount a.w w' x)
     | none => countRange a.w w'
   | .lzCount =>
-    if a.isTop then countRange a.w w'
+    if a.tryToBitvec.isNone && !countFits a.w w' then newTop w'
+    else if a.isTop then countRange a.w w'
     else
       let s := leadingZeros a.w a.interval.start
       let e := leadingZeros a.w a.interval.stop
